@@ -629,3 +629,72 @@ def o6_adoption_guard(prog):
         if found:
             r.inst(key, tag=fn.name)
     return r
+
+
+@rule('O7', props=['C05', 'C04', 'C01', 'C13'], floor={'all': 15, 'default': 13}, configs=('all', 'default'))
+def o7_identifier_column(prog):
+    """The archetype's identifier column obeys the same raw-parts discipline as the component columns: every
+    Vec<entity::Identifier> rebuilt from `X.entity_identifiers` takes its pointer from `.0`, its capacity
+    from `.1` and its length from `X.length` of the same archetype; it is wrapped in ManuallyDrop and never
+    dropped, except where the archetype itself is being destroyed; after a call that may reallocate it the
+    field is written back with (as_mut_ptr, capacity) of that same Vec on every path to return."""
+    r = Result()
+    step_dps = {fn.dp for fn, _ in walk_fns(prog)}
+    adt = prog.adts.get('archetype::Archetype')
+    names = [x['name'] for x in adt['variants'][0]['fields']]
+    ki, kl = names.index('entity_identifiers'), names.index('length')
+    for fn in prog.fns.values():
+        if fn.dp in step_dps or fn.kind == 'Closure':
+            continue
+        if not any(t['f']['name'] == 'from_raw_parts' and t['f']['path'].startswith('alloc::vec') and any(is_adt(a, 'entity::identifier::Identifier') for a in t['f']['args']) for b, t in fn.body.calls()):
+            continue
+        it, paths = traces(prog, fn)
+        key = fn.path.split('::<impl')[0] if False else fn.path
+        found = False
+        destroying = fn.name == 'drop' or fn.name.startswith('visit_') or fn.name in ('deserialize',)
+        for p in paths:
+            if p.ended != 'return':
+                continue
+            evs = p.events
+            for i, e in enumerate(evs):
+                if e['k'] != 'from_raw' or e['what'] != 'vec' or not is_adt(e['ty'], 'entity::identifier::Identifier'):
+                    continue
+                ptr, ln_, cap = e['ptr'], e['len'], e['cap']
+                if not (ptr[0] == 'field' and ptr[1][0] == 'field'):
+                    continue   # not rebuilt from a stored pair (e.g. deserialiser locals): covered by G5
+                base = ptr[1][1]
+                if not (ptr[1][2] == ki):
+                    continue
+                found = True
+                if ptr[2] != 0 or not (cap[0] == 'field' and cap[1] == ptr[1] and cap[2] == 1):
+                    r.viol('O7', fn.path + '/parts-mismatch', fn.loc(e['ln']), 'identifier column rebuilt with pointer/capacity that are not the two halves of the same entity_identifiers pair')
+                if not (ln_[0] == 'field' and ln_[1] == base and ln_[2] == kl):
+                    r.viol('O7', fn.path + '/wrong-length', fn.loc(e['ln']), 'identifier column rebuilt with a length that is not the same archetype\'s `length`')
+                v = ('vec', e['obj'])
+                drops = [d for d in evs if d['k'] == 'drop' and not d.get('cleanup') and d['value'][:2] == v]
+                if destroying:
+                    pass
+                else:
+                    for d in drops:
+                        r.viol('O7', fn.path + '/drops-live-column', fn.loc(d['ln']), 'a Vec rebuilt from the live identifier column is dropped (double free)')
+                    for m in evs:
+                        if m['k'] == 'vec_method' and m['vec'][:2] == v and m.get('unwrapped'):
+                            r.viol('O7', fn.path + '/unwrapped-owner/' + m['name'], fn.loc(m['ln']), 'the rebuilt identifier column is used without being wrapped in ManuallyDrop')
+                            break
+                for j, m in enumerate(evs):
+                    if m['k'] == 'vec_method' and m['vec'][:2] == v and m['name'] in REALLOC:
+                        ok = False
+                        for w in evs[j + 1:]:
+                            if w['k'] == 'field_write' and w['base'] == base and ("'f': %d" % ki) in w['proj']:
+                                val = w['value']
+                                if val[0] == 'tuple' and len(val[1]) == 2 and val[1][0][0] in ('vecptr', 'vecptr_u8') and val[1][0][1][:2] == v and val[1][1][0] == 'veccap' and val[1][1][1][:2] == v:
+                                    ok = True
+                                else:
+                                    r.viol('O7', fn.path + '/write-back-other', fn.loc(w['ln']), 'entity_identifiers overwritten with something other than (ptr, capacity) of the Vec rebuilt from it')
+                                    ok = True
+                                break
+                        if not ok:
+                            r.viol('O7', fn.path + '/missing-write-back/' + m['name'], fn.loc(m['ln']), 'Vec::%s may move the identifier column but entity_identifiers is not updated before returning' % m['name'])
+        if found:
+            r.inst(fn.path)
+    return r
